@@ -534,6 +534,10 @@ class KTHierarchyPropagator:
         """
         rhot = DensityMatrixEvolution(timeaxis=self.timeaxis, rhoi=rhoi)
         
+        # every run starts from an empty hierarchy; auxiliary operators
+        # of a previous run must not be carried over
+        self.hy.reset_ados()
+        
         if free_hierarchy:
             
             # first act with lifting superoperators
